@@ -99,6 +99,7 @@ func guardedBy(c *eng.Ctx, field, mu string, exceptions map[string]string, min i
 
 func runC02(c *eng.Ctx) {
 	p := c.P
+	c.Rule("ORDER", cjT+".installCompactionResults{one commit}", func() { installOneCommit(c) }) // C02-m21: shared with C03/C04/C15
 	findFilesReturnsItsOwnSlice(c)
 	c.Rule("ATOMIC", famT+".rollup{single flight}", func() { singleFlight(c, famT+".rolluping", famT+".rollup") })
 
